@@ -9,6 +9,9 @@ Driver for C16. The first token after the id is the case kind.
       the same, but the last calls (same key, same now) were issued by simultaneous goroutines; the
       harness lists their results admitted-first, highest remaining first (any serialisation of calls
       with one timestamp yields exactly that sequence)
+  K …same tokens as S…
+      all calls are the very first requests of a fresh limiter on its default store, issued by goroutines
+      released together (wall clock): judged by the bound and the shape of the answers only
   M <rate> <burst> <headers> <enforce> <callback> <n> {key now}* => <n> {allowed remaining reset  status ran limit remaining reset retry}*
       the trace driven through WithTokenBucket (httptest); per call what the store returned and what
       the client saw (each header `0 | 1 value`)
@@ -65,6 +68,16 @@ def storeVerdict (id : String) (c : StoreCase) (obs : List Out) : String :=
   let m := runStore c.rate (c.burst * 512) [] c.calls
   let s := bucketSpecOK c.rate (c.burst * 512) c.calls obs
   verdict id (obs == m) s "-" (s!"{m.length} " ++ " ".intercalate (m.map showOut))
+
+/-- cold start (kind `K`): no exact prediction — the goroutines read the wall clock themselves — so
+    "model = implementation" means: the answers have the shape every serialisation produces, and the
+    number admitted does not exceed what the model admits at most (`concurrent_le_tokens`) -/
+def coldVerdict (id : String) (c : StoreCase) (obs : List Out) : String :=
+  let m := runStore c.rate (c.burst * 512) [] c.calls
+  let maxAdm := (m.filter (·.allowed)).length
+  let s := coldSpecOK c.burst obs && obs.length == c.calls.length
+  let mi := coldShapeOK c.burst obs && decide ((obs.filter (·.allowed)).length ≤ maxAdm) && obs.length == c.calls.length
+  verdict id mi s "-" s!"at-most {maxAdm} admitted"
 
 /-! ### token bucket middleware -/
 
@@ -171,6 +184,11 @@ def step (line : String) : String :=
     | "S" :: rest | "C" :: rest =>
       match runP pStoreCase rest, runP (pObs (list pOut)) obs with
       | some c, some (some o) => storeVerdict id c o
+      | some _, some none => verdict id false false "-" "P"
+      | _, _ => s!"{id} bad-case"
+    | "K" :: rest =>
+      match runP pStoreCase rest, runP (pObs (list pOut)) obs with
+      | some c, some (some o) => coldVerdict id c o
       | some _, some none => verdict id false false "-" "P"
       | _, _ => s!"{id} bad-case"
     | "M" :: rest =>
